@@ -604,6 +604,23 @@ M('C08-n-rename-pos', 'C08', F_PARSER,
   "            return StatBreak(start=pos, end=self._pos)\n", kind='neutral')
 
 # ---------------------------------------------------------------- C09 ----
+M('C09-revert-fix28-empty-else', 'C09', F_LUA,
+  "        else:\n"
+  "            # The parser consumes the \"else\" of a short-if whose else block\n"
+  "            # is empty without storing a pair for it.\n"
+  "            yield self._get_code_for_spaces(node)\n"
+  "            if (self._pos < node.end_pos and\n"
+  "                    self._tokens[self._pos].matches(lexer.TokKeyword(b'else'))):\n"
+  "                yield self._get_text(node, b'else')\n",
+  "",
+  expect='R-C09-agree', note='if (x) a=1 else<newline>: the else keyword '
+  'the parser consumed without storing a pair')
+M('C09-empty-else-dropped', 'C09', F_LUA,
+  "                    self._tokens[self._pos].matches(lexer.TokKeyword(b'else'))):\n"
+  "                yield self._get_text(node, b'else')\n",
+  "                    self._tokens[self._pos].matches(lexer.TokKeyword(b'else'))):\n"
+  "                self._pos += 1\n",
+  expect='R-C09-agree', note='the keyword is skipped but not written')
 M('C09-revert-fix13-eow', 'C09', F_LUA,
   "        if (not self._args.get('ignore_tokens') and\n"
   "                self._pos != len(self._tokens)):\n"
